@@ -6,11 +6,12 @@ from ..common import mkrnd
 
 ENGINE_ID = 19
 K_ELAB = 3            # elaborations of one instance
-LIMIT_S = 10          # wall-clock limit for the constructor and for each elaboration
+LIMIT_S = 10          # CPU-time limit (ITIMER_PROF) for the constructor and for each elaboration + conversion
+WALL_S = 90           # wall-clock backstop (ITIMER_REAL) for the same steps: the machine may be loaded
 N = {"quick": 720, "thorough": 9000}
 CLS = {"mux": 1, "csrdec": 2, "csrbridge": 3, "register": 4, "action": 5, "monitor": 6, "csrevent": 7,
        "wbcsr": 8, "wbdec": 9, "arbiter": 10, "sram": 11, "gpio": 12}
-RULE = ("idx 0 = K2 probe (500 one-byte readable registers), idx 1, 2 = submodule-name-collision probes (csr.Register field paths, csr.Bridge register names incl. \"mux\"); otherwise the class "
+RULE = ("idx 0, 3 = K2 probes (500 one-byte readable registers in one shared chunk / in 500 chunks), idx 1, 2 = submodule-name-collision probes (csr.Register field paths, csr.Bridge register names incl. \"mux\"); otherwise the class "
         "is idx mod 12 over csr.Multiplexer (mock registers, natural / packed / unaligned / padded layouts, span <= 2^12, "
         "shadow_overlaps in {None,0,1,2,3,4,5,8}; thorough adds every placement of two registers in [0,8) x {None,0,1,2}), "
         "csr.Decoder, csr.Bridge over csr.Builder (Cluster / Index scopes, real Registers), csr.Register (field trees, every "
@@ -37,16 +38,21 @@ def _on_alarm(signum, frame):
 
 
 class limit:
+    """LIMIT_S seconds of CPU time of this process (load independent; a non-terminating elaboration burns
+    CPU), with a wall-clock backstop of WALL_S seconds."""
     def __init__(self, s=LIMIT_S):
         self.s = s
 
     def __enter__(self):
-        self.old = signal.signal(signal.SIGALRM, _on_alarm)
-        signal.setitimer(signal.ITIMER_REAL, self.s)
+        self.old = (signal.signal(signal.SIGPROF, _on_alarm), signal.signal(signal.SIGALRM, _on_alarm))
+        signal.setitimer(signal.ITIMER_PROF, self.s)
+        signal.setitimer(signal.ITIMER_REAL, WALL_S)
 
     def __exit__(self, *a):
+        signal.setitimer(signal.ITIMER_PROF, 0)
         signal.setitimer(signal.ITIMER_REAL, 0)
-        signal.signal(signal.SIGALRM, self.old)
+        signal.signal(signal.SIGPROF, self.old[0])
+        signal.signal(signal.SIGALRM, self.old[1])
         return False
 
 
@@ -351,9 +357,13 @@ def well_typed(kind, cfg):
 
 def gen_case(seed, tier, idx):
     rnd = mkrnd(seed, "elab", idx)
-    if idx == 0:
-        return {"engine": "elab", "kind": "mux", "sub": "k2probe", "pred": 0,
-                "cfg": {"aw": 12, "dw": 8, "regs": [[i, i + 1, 8, 1, 1] for i in range(500)], "ov": None, "bad": None}}
+    if idx in (0, 3):
+        # K2 regression probes: 500 one-byte registers sharing ONE chunk (default limit), or one chunk each
+        # (light: Amaranth's RTLIL text for one Switch with 500 cases is ~15 MB and takes ~5 s per
+        # elaboration, so the shared-chunk probe compares the netlist text instead)
+        return {"engine": "elab", "kind": "mux", "sub": "k2probe", "pred": 0, "light": int(idx == 0),
+                "cfg": {"aw": 12, "dw": 8, "regs": [[i, i + 1, 8, 1, 1] for i in range(500)],
+                        "ov": None if idx == 0 else 0, "bad": None}}
     if idx in (1, 2):
         return gen_collision(rnd, idx)
     nk = len(KINDS)
@@ -863,6 +873,19 @@ def shadow_chunks(frag):
     return found["r"], found["w"]
 
 
+def has_negative_enum(x):
+    """Amaranth 0.5.10's RTLIL back end cannot emit a signal shaped by an enumeration with a negative member
+    (amaranth/back/rtlil.py emit_signal_wires -> to_binary: "-112 does not fit in 8 bits"), whatever the design;
+    for such shapes the netlist text is compared instead of the RTLIL text."""
+    if isinstance(x, dict):
+        if x.get("t") == "enum" and x.get("members") and min(x["members"]) < 0:
+            return True
+        return any(has_negative_enum(v) for v in x.values())
+    if isinstance(x, list):
+        return any(has_negative_enum(v) for v in x)
+    return False
+
+
 def exc_info(e):
     return [type(e).__name__, str(e)[:200]]
 
@@ -871,9 +894,10 @@ def run_impl(case):
     """Observation dict (not compared as such): 'refused' (None | [class, message]), 'elabs' (one record per
     elaboration: ok / exception / sha1 of the RTLIL text / seconds), 'meta' (first metadata difference or None),
     'cmp' (the part compared with the model, see canon)."""
-    from amaranth.hdl import Fragment
+    from amaranth.hdl import Fragment, _ir
     from amaranth.back import rtlil
     kind, cfg = case["kind"], case["cfg"]
+    fallback = has_negative_enum(cfg) or bool(case.get("light"))
     cls = CLS[kind]
     o = {"cls": cls, "pred": case["pred"], "refused": None, "elabs": [], "meta": None, "info": {}, "log": [],
          "timeout": None}
@@ -910,7 +934,10 @@ def run_impl(case):
             with limit():
                 frag = Fragment.get(b.dut, None)
                 rec["stage"] = "netlist"
-                text, _ = rtlil.convert_fragment(frag, ports=ports, name="top", emit_src=False)
+                if fallback:
+                    text = repr(_ir.build_netlist(frag, ports=ports, name="top"))
+                else:
+                    text, _ = rtlil.convert_fragment(frag, ports=ports, name="top", emit_src=False)
             rec["ok"] = True
             rec["sha"] = hashlib.sha1(text.encode()).hexdigest()
             rec["len"] = len(text)
@@ -1059,8 +1086,7 @@ def oracle(case, o):
         nm, msg = o["refused"]
         pinned = nm == "AttributeError" and kind == "mux" and PIN_MSG in msg
         if nm not in ("ValueError", "TypeError", "Timeout") and not pinned:
-            key = "storage-init-outside-range-syntaxerror" if nm == "SyntaxError" and msg.startswith("Initial value") else None
-            out.append(("C19", "constructor", f"{kind} refused its arguments with {nm}: {msg}", key))
+            out.append(("C19", "constructor", f"{kind} refused its arguments with {nm}: {msg}"))
         return out
     for st, code in o["log"]:
         pass                          # tolerated ValueError / TypeError of add() steps; anything else propagated
@@ -1140,14 +1166,15 @@ def shrink(case, fails):
         return case
     best = case
     budget = 40
+    deadline = time.time() + 25
     changed = True
-    while changed and budget > 0:
+    while changed and budget > 0 and time.time() < deadline:
         changed = False
         items = best["cfg"][key]
         step = max(1, len(items) // 2)
-        while step >= 1 and budget > 0:
+        while step >= 1 and budget > 0 and time.time() < deadline:
             i = 0
-            while i < len(best["cfg"][key]) and budget > 0:
+            while i < len(best["cfg"][key]) and budget > 0 and time.time() < deadline:
                 items = best["cfg"][key]
                 c = dict(best); c["cfg"] = dict(best["cfg"]); c["cfg"][key] = items[:i] + items[i + step:]
                 if case["kind"] == "csrdec":
